@@ -20,7 +20,7 @@ CHECKS = {
          "Empty-packet start pointer is not compared (only end - start == 0).",
          "DESIGN.md section 3, C09"),
  "C10": ("model-based (stateful) property testing: generated API-call histories checked step by step against an abstract VM state machine, fork-isolated",
-         "Histories of up to 30 calls over load / verify / configure / compile / execute on all four VM kinds; the abstract machine predicts Ok/Err and the value of every step, using the reference model for program results; stale compiled code and state changes by failed calls are detected at the first observation that differs. Histories without packet-reading programs also execute with the empty packet. The program of the fixed VM's largest layout also adds up the spare words of its buffer (zero after every load, whatever earlier programs of the VM left). register_helper may bind an id to another function: after recompilation compiled code must call the new one. Exploration.",
+         "Histories of up to 30 calls over load / verify / configure / compile / execute on all four VM kinds; the abstract machine predicts Ok/Err and the value of every step, using the reference model for program results; stale compiled code and state changes by failed calls are detected at the first observation that differs. Histories without packet-reading programs also execute with the empty packet. One pool program is admitted by the accept-all verifier only because of a local call in dead code whose target lies outside the program (histories that JIT-compile it are not judged). The program of the fixed VM's largest layout also adds up the spare words of its buffer (zero after every load, whatever earlier programs of the VM left). register_helper may bind an id to another function: after recompilation compiled code must call the new one. Exploration.",
          "The 'default' verifier re-installed through set_verifier is the harness's reference verifier (the crate does not export its own).",
          "DESIGN.md section 3, C10"),
  "C02": ("proptest + exhaustive boundary windows of single-access probes against an exact address oracle, fork-isolated with PROT_NONE guard pages and canary arenas",
@@ -44,7 +44,7 @@ CHECKS = {
          "rbpf's own emit bounds assertion (debug assertions on) and process death detect overruns of the sized buffer; Cranelift code is not compared byte for byte.",
          "DESIGN.md section 3, C12"),
  "C01": ("proptest differential against an independent reference interpreter with definedness tracking (model-based oracle), fork-isolated",
-         "Structured programs over every opcode, register, immediate class, control-flow shape, VM kind and input are executed by the interpreter in a forked child and compared (value or error class, and every packet / metadata byte) with a reference interpreter written from the ISA statement; runs that depend on undefined state are discarded and counted. Long programs (32k/65k/100k+ instructions) are a separate stream. A deterministic instruction matrix (every opcode x every register pair x boundary operands, ~108,000 single-instruction tests) and a pair matrix (all ordered pairs of ~70 instruction forms, second instruction entered in sequence / by jump / by local call) complement the random programs, as do the call graphs of C07. A separate stream places one ldabs / ldind / ldx / stx, in bounds, far into a packet of 32-160 KiB (immediates and pointer advances around 2^15 and 2^16, 16-bit offsets down to -32768 and up to 32767) on the raw, metadata and fixed-metadata VMs; the expected value is the packet's own bytes at that position. A third of the VMs each: program given to new(); created empty, configured first and loaded last; program given to new(), configured, then the same program loaded again with set_program() (the configuration must survive a reload). Exploration.",
+         "Structured programs over every opcode, register, immediate class, control-flow shape, VM kind and input are executed by the interpreter in a forked child and compared (value or error class, and every packet / metadata byte) with a reference interpreter written from the ISA statement; runs that depend on undefined state are discarded and counted. Long programs (32k/65k/100k+ instructions) are a separate stream. A deterministic instruction matrix (every opcode x every register pair x boundary operands, ~108,000 single-instruction tests) and a pair matrix (all ordered pairs of ~70 instruction forms, second instruction entered in sequence / by jump / by local call) complement the random programs, as do the call graphs of C07. Loops whose head is instruction 0 (back-edges of every kind to a first instruction that is not idempotent, or that is a wide load) are a stream of their own, in C03 / C04 as well. A separate stream places one ldabs / ldind / ldx / stx, in bounds, far into a packet of 32-160 KiB (immediates and pointer advances around 2^15 and 2^16, 16-bit offsets down to -32768 and up to 32767) on the raw, metadata and fixed-metadata VMs; the expected value is the packet's own bytes at that position. A third of the VMs each: program given to new(); created empty, configured first and loaded last; program given to new(), configured, then the same program loaded again with set_program() (the configuration must survive a reload). Exploration.",
          "Trusts harness/vrun/src/model.rs; known finding I2 (zero-extended jump immediates) is excluded by its exact signature and reported as KNOWN-FINDING.",
          "DESIGN.md sections 2.1, 2.2, 3 C01"),
  "C03": ("proptest differential JIT vs interpreter under a model-checked premise, fork-isolated with guard-page buffers at identical addresses",
@@ -56,7 +56,7 @@ CHECKS = {
          "Premise classification trusts the model; Cranelift compile time bounds the case count; known finding I2 excluded by signature.",
          "DESIGN.md section 3, C04"),
  "C08": ("proptest with instrumented helpers (assembly entry stubs recording rsp, shared-memory call log) against the reference model's call sequence, on all three engines",
-         "Generated programs with 1-4 call sites at local-call depth 0-3, boundary helper ids, registered and unregistered, junk in unused call fields; the observed log (which function, how often, argument order), stack alignment at entry, result and preserved registers are compared with the model; unregistered ids must be a run-time Err (interpreter, only if reached) or a compile-time Err (both compilers). All four VM kinds; helpers are registered in an order that is a function of the case; half of the VMs are created empty, configured first and loaded last. Exploration.",
+         "Generated programs with 1-4 call sites at local-call depth 0-8, boundary helper ids, registered and unregistered, junk in unused call fields; the observed log (which function, how often, argument order), stack alignment at entry, result and preserved registers are compared with the model; unregistered ids must be a run-time Err (interpreter, only if reached) or a compile-time Err (both compilers). All four VM kinds; helpers are registered in an order that is a function of the case; construction order as in C01 (new(program) / empty-configure-load / new(program)-configure-reload). Programs run under a stack-usage calculator returning 0-56 or exactly 256 bytes per frame, or under no calculator at all (default frames). Exploration.",
          "Alignment is read from rsp captured by a two-instruction assembly stub in front of each helper; Rust-ABI == C-ABI for five u64 arguments on x86-64.",
          "DESIGN.md section 3, C08"),
  "C06": ("proptest differential against an independent reference verifier over near-valid byte strings (both directions: false accepts and false rejects); thorough tier adds a coverage-guided libFuzzer campaign (cargo-fuzz, ASan) with the same oracle inside the target",
@@ -72,7 +72,7 @@ CHECKS = {
          "A panic must unwind to be observed (harness built with panic=unwind); time bound is a 20 s per-call watchdog reported as inconclusive.",
          "DESIGN.md section 3, C14"),
  "C15": ("proptest validity predicate: disassembler output vs independent decoder, mnemonic table and a parser of the assembler syntax; thorough tier adds a coverage-guided libFuzzer campaign (cargo-fuzz, ASan) with the same oracle inside the target",
-         "Instruction streams over every opcode, all register nibbles, extreme offsets and immediates are disassembled; each entry's fields, merged immediate, name and parsed text are compared with the reference decoding (thorough: every opcode x all 65536 offsets enumerated). Long programs of up to 2^17 slots (2^19 thorough) with wide loads on every kind of position, and the captured stdout of disassemble(), go through the same oracle. A byte swap of a width the assembler cannot express must not print as a valid one. Exploration.",
+         "Instruction streams over every opcode, all register nibbles, extreme offsets and immediates are disassembled; each entry's fields, merged immediate, name and parsed text are compared with the reference decoding (thorough: every opcode x all 65536 offsets enumerated). Long programs of up to 2^17 slots (2^19 thorough) with wide loads on every kind of position, and the captured stdout of disassemble(), go through the same oracle; so do a few programs of 999,998-1,000,003 slots with a wide load straddling slot 1,000,000 (the verifier's limit is not the disassembler's). About one instruction in four repeats the one before it, half of those with another upper half. A byte swap of a width the assembler cannot express must not print as a valid one. Exploration.",
          "Trusts the reference decoder and mnemonic table in isa.rs and the desc parser in asmref.rs; cosmetic text differences are tolerated by design.",
          "DESIGN.md section 3, C15"),
  "C16": ("proptest round trip disassemble -> assemble, with a canonical-form oracle for non-expressible programs; thorough tier adds a coverage-guided libFuzzer campaign (cargo-fuzz, ASan) with the same oracle inside the target",
